@@ -16,6 +16,7 @@ from .interp import Interp, State, Obligation, LoopSpec, Closure, Model, Obj, Ex
 class Path:
     def __init__(self, st, out):
         self.st, self.out = st, out
+        self.notes = list(st.notes)
 
     @property
     def kind(self):
@@ -74,6 +75,16 @@ class UnitResult:
         pc = path_or_pc.st.pc if isinstance(path_or_pc, Path) else path_or_pc
         self.extra.append(Obligation(f'{self.unit.name}.{name}', pc, goal, tag, meta))
 
+    def body_paths(self, loop):
+        """end states of the generic iteration of a cut loop"""
+        return [Path(s, o) for s, o in self.interp.loop_paths.get(loop, [])]
+
+    def all_paths(self):
+        out = list(self.paths)
+        for name in self.interp.loop_paths:
+            out.extend(self.body_paths(name))
+        return out
+
     def returns(self):
         return [p for p in self.paths if p.kind in ('return', 'normal')]
 
@@ -84,7 +95,7 @@ class UnitResult:
 class Unit:
     def __init__(self, name, relpath, selector, setup, post=None, loops=None, nth=None,
                  contextmanager=False, drop=None, expect_min_obligations=1, prop=None,
-                 replay=None, on_yield=None, notes='', local_types=None):
+                 replay=None, on_yield=None, notes='', local_types=None, stmt=None):
         self.name, self.relpath, self.selector = name, relpath, selector
         self.setup, self.post, self.loops, self.nth = setup, post, loops or {}, nth
         self.contextmanager, self.drop = contextmanager, drop
@@ -94,9 +105,10 @@ class Unit:
         self.on_yield = on_yield
         self.notes = notes
         self.local_types = local_types or {}
+        self.stmt = stmt
 
     def target(self):
-        return f'{self.relpath}::{self.selector}' + (f'#{self.nth}' if self.nth is not None else '')
+        return f'{self.relpath}::{self.selector}' + (f'#{self.nth}' if self.nth is not None else '') + (f'::{self.stmt}' if self.stmt else '')
 
     def execute(self):
         """-> (obligations, info dict).  raises Unsupported when undecided."""
@@ -109,13 +121,13 @@ class Unit:
         self.setup(b)
         # every parameter must be bound by the sidecar
         a = node.args
-        for p in a.posonlyargs + a.args + a.kwonlyargs:
+        for p in (a.posonlyargs + a.args + a.kwonlyargs if self.stmt is None else []):
             if not b.st.has(p.arg):
                 raise Unsupported(f'{self.name}: parameter {p.arg} not bound by sidecar')
         req_sat = solve.satisfiable(b.st.pc)
         if req_sat == z3.unsat:
             raise VacuityError(f'{self.name}: contradictory requires')
-        results = interp.run_function(node, b.st)
+        results = interp.run_function(node, b.st, stmt=self.stmt)
         paths = [Path(s, o) for s, o in results]
         res = UnitResult(self, interp, paths, b)
         if self.post is not None:
